@@ -1,6 +1,7 @@
 (* Extraction of the C18 loader model to OCaml (ExtrOcamlBasic + ExtrOcamlString only; nat stays unary). *)
 From Coq Require Import Extraction ExtrOcamlBasic ExtrOcamlString.
-From Cb Require Import C18.Model.
+From Cb Require Import C18.Model C18.Front.
 Extraction Language OCaml.
 Extraction "C18/c18_model.ml" start_program load handle_import resolve file_path_of search_paths lookup
-  find_ctor empty_tables parser_impls handle_inline run_ops block eval assign.
+  find_ctor empty_tables parser_impls handle_inline run_ops block eval assign
+  parse_item parse_module parse_file parse_fs import_env sresolve.
